@@ -49,8 +49,8 @@ type Program struct {
 	wasInlined map[*types.Func]bool
 	dissolved  map[*packages.Package]map[*types.Func]bool
 	anchors    map[*types.Func]bool
-	inlined   map[*types.Func]*FuncDecl
-	posOrigin map[token.Pos]token.Pos
+	inlined    map[*types.Func]*FuncDecl
+	posOrigin  map[token.Pos]token.Pos
 }
 
 // LoadOpts configures a load.
